@@ -491,6 +491,8 @@ class Representation(ObjectWithFields):
         timing = self._timing
         if timing.mode != 'live':
             if segment_num is None:
+                if segment_time >= self.mediaDuration:
+                    raise ValueError(f'$Time$={segment_time} is beyond the end of the media')
                 st = segment_time + (self.segment_duration >> 2)
                 segment_num = int(st // self.segment_duration) + self.start_number
             mod_segment = 1 + segment_num - self.start_number
